@@ -20,7 +20,7 @@ def run(pid, tier, seed):
       m = ev["meta"]
       ident = {"clause": cl, "kind": m["kind"], "layer": ev["layer"],
                "input_range_inside_unit_interval": bool(ev.get("range")) and max(abs(ev["range"][0]), abs(ev["range"][1])) < 1, "weights": m["wq"].split("_")[0].rstrip("0123456789iu"),
-               "bias": m["bq"] != "none"}
+               "bias": bool(ev["hasb"]) if "hasb" in ev else m["bq"] != "none"}     # the bias of THIS layer (l2 has its own)
       if "iq" in m:
         ident["input_quantizer"] = m["iq"].rstrip("0123456789")
       # two structural facts of the failing case that the recorded findings are keyed on
